@@ -259,3 +259,53 @@ func clip(b []byte, n int) []byte {
 	}
 	return b
 }
+
+// ZoneFloodJPEG is a JPEG whose Exif blocks hold, in all, about 2000 OffsetTime* entries with
+// pairwise different zone strings; no string is shared between files of different index. The
+// library keeps one zone object per offset for the life of the process.
+func ZoneFloodJPEG(index int) []byte {
+	var segs []Seg
+	v := index * 2000
+	for b := 0; b < 25; b++ {
+		// IFD0: one pointer to the Exif directory; Exif directory: 80 entries, values behind it
+		t := []byte("II*\x00\x08\x00\x00\x00")
+		le16 := func(x int) { t = append(t, byte(x), byte(x>>8)) }
+		le32 := func(x int) { t = append(t, byte(x), byte(x>>8), byte(x>>16), byte(x>>24)) }
+		le16(1)
+		le16(0x8769)
+		le16(4)
+		le32(1)
+		le32(26)
+		le32(0)
+		n := 80
+		le16(n)
+		val := 26 + 2 + 12*n + 4
+		for i := 0; i < n; i++ {
+			le16([]int{0x9010, 0x9011, 0x9012}[i%3])
+			le16(2)
+			le32(7)
+			le32(val + 8*i)
+		}
+		le32(0)
+		for i := 0; i < n; i++ {
+			// "+hh:mm" whose "digits" are any bytes >= '0' (the library takes them all): offset
+			// number u becomes hours u/60 (up to 2277, two digits of up to 207 each) and minutes u%60
+			k := v
+			v++
+			u := k / 2
+			h, m := u/60, u%60
+			d1 := h / 10
+			if d1 > 207 {
+				d1 = 207
+			}
+			d2 := h - 10*d1
+			z := []byte{'+', byte('0' + d1), byte('0' + d2), ':', byte('0' + m/10), byte('0' + m%10), 0, 0}
+			if k%2 == 1 {
+				z[0] = '-'
+			}
+			t = append(t, z...)
+		}
+		segs = append(segs, ExifSeg(t))
+	}
+	return BuildJPEG(core.NewRng(uint64(index), 0x20e), segs, 64).Bytes
+}
